@@ -15,7 +15,7 @@
 //   remove_cell : the cell is present and no present cell has it as a face
 //   filtered    : filtration values monotone (non-decreasing or non-increasing) along the sequence; cell keys distinct
 // --seed-ops <list|all>: every history starts with that fixed operation list ("all" = insert every cell of the universe
-//   in numbering order); the enumeration (depth counted after the seed) is exhaustive from there.
+//   in numbering order, "allrev" = by dimension and decreasing number); the enumeration (depth counted after the seed) is exhaustive from there.
 // Case encoding (replayable): "u=<universe>;ops=<c1,c2,...>;fe=<plain|storage|stream>[;dimmax=<d>;vals=<v1,...>]"
 //   op code 0 = apply_identity, 1+c = insert cell c, 1+N+c = remove cell c (N = number of cells of the universe).
 #include "harness.hpp"
@@ -588,7 +588,7 @@ struct Enum {
     if (reins > 0) S.add("histories.with_reinsertion");
     if (nrem > 0 && nfin > 0) S.add("ev.nontrivial");
     S.maxi("bars_per_history_max", (long long)want.size());
-    if (h.size() >= 5 && S.samples.size() < 3 && nrem >= 2 && nfin >= 2)
+    if (h.size() >= 6 && S.samples.size() < 3 && nrem >= 2 && nfin >= 3 && reins >= 1)
       S.sample(U.name + ": " + chk.ops_text(h) + "=> " + ivs(want));
 
     if (oracle_only) { S.add("ev.incomplete"); return; }
@@ -715,6 +715,9 @@ int main(int argc, char** argv) {
   {
     std::string sd = a.get("seed-ops", "");
     if (sd == "all") for (int c = 0; c < U.N(); ++c) e.seed.push_back(1 + c);  // every cell of the universe, by number
+    else if (sd == "allrev") {  // every cell, by dimension, cells of one dimension by decreasing number
+      for (int d = 0; d <= 3; ++d) for (int c = U.N() - 1; c >= 0; --c) if (U.c[c].dim == d) e.seed.push_back(1 + c);
+    }
     else e.seed = vf::parse_ints(sd);
   }
   e.run((int)a.geti("depth", 5));
